@@ -8,6 +8,16 @@ VERIF = os.path.dirname(os.path.dirname(os.path.abspath(__file__)))
 
 # property -> (technique, level text, level note, design ref)
 CLAIMED = {
+    "C01": (
+        "TLC model checking of Wire.tla at byte granularity (tokens <<frame,offset>>; invariants NoLoss/WireOK/ChanFifo/Boundary; bug-switch counterexample BugDrainWrong) + TLC-generated write-budget schedules relative to frame boundaries run on real connections + TLC trace validation (WireTrace.tla) of every write call and every client frame",
+        "TLC checks for 2-3 handles x up to 3 frames of 1-3 bytes, MemBound 1-2, every accept size / would-block point / interleaving (325 k states quick, 2.5 M thorough) that wire ++ unsent = header ++ pulled frames, per-handle FIFO, no interleaving inside a frame, and that draining pos-1 or len bytes breaks NoLoss. The code is bound by 289 (thorough 9 459) real sessions of 1-4 publisher threads plus RPCs, every frame self-describing, against all TLC-generated single/pair cuts (inside the 7-byte header, 1 before/at/1 after a frame end, mid-payload, beyond a frame, with forced would-blocks), cyclic per-call limits, 1..9-byte and random budgets (2.4 M write calls thorough); TLC matches each frame cut out by an independent parser with the per-channel issue FIFO and replays append/offer/would-block/clear arithmetic from hook and write records.",
+        "Trusted: TLC, mock transport and its byte-continuity counter, broker envelope parser + amq-protocol decoder, hook events chanmsg/loop_end. Level-triggered abstraction of event sources in the model. write() returning Ok(0) is outside the fault model. A per-channel synchronous call is the barrier before close.",
+        "DESIGN.md §4 C01"),
+    "C18": (
+        "TLC model checking of Wire.tla's watermark/throttle part (invariants Bound/Throttled/RegSync + NoLoss, liveness AllDelivered and outlen<=Low ~> listening under FairSpec; counterexamples BugLowWaterStrict, BugNoRereg) + stalled-transport scenarios over tunings on real connections + TLC trace validation (WireTrace.tla) of hook events",
+        "TLC checks (342 k states quick, 2.2 M thorough, liveness on 2 configs) that buffered bytes stay within high water + one wake-up's intake, nothing is pulled from a throttled handle, everything issued is eventually on the wire and throttling ends, and that `<` on the low-water test with Low=0 or a resume without re-registration break these. The code is bound by 53 (thorough 2 215; 779 tunings) scenarios bound {0,1,2,16} x high {0, 1 frame, 64 KiB} x low {0, H/2, H} x 1/2/4 publishers: transport stalled, publishers push until blocked (optionally behind a parked I/O thread), a channel opened and one closed while throttled, budget returned at once / byte by byte / landing 1 above and on the low-water mark; TLC replays chanmsg/throttle/loop_end/write records through Wire!WaterStep and Wire!BoundBytes and checks throttled, bound, blocked, resume, nolost (C01 machinery), nohang.",
+        "Trusted: TLC, mock transport, hooks. Bound demanded = high + channels x (bound+1) x max frame + channel-0 bytes; a drain that takes more than bound+1 buffers from one channel in one wake-up is reported separately (C18:bound-drain). Only low <= high generated. Quiescence detection (progress counters idle 30-40 ms) only times inputs. mio edge-trigger protocol not modelled, searched on the real code only.",
+        "DESIGN.md §4 C01/C18"),
     "C05": (
         "TLC model checking of Conn.tla with transport faults enabled in every state (MC_Conn_crash: Released, NoStuckCaller, "
         "OneTerminal; bug switch keepsender) + fault enumeration over a scripted session of the real client (every byte offset, "
